@@ -1,6 +1,7 @@
 import Gv.Model.Fmt.Phylip
 import Gv.Proofs.Decimal
 import Gv.Proofs.FastaRT
+import Gv.Proofs.Utf8Norm
 import Gv.Spec.Fmt
 /-!
 Phylip round trip, helper development, part 1: lexing the writer's lines (the property statement is in
@@ -283,13 +284,17 @@ theorem first_relaxed (block : Nat) (hb : 0 < block) (nm : Name) (hn : Run nm) (
 theorem pad10_eq (nm : Name) (h : nm.length ≤ 10) : pad10 nm = nm ++ List.replicate (10 - nm.length) SP := by
   simp [pad10, List.take_of_length_le h]
 
-theorem readName10_pad (nm : Name) (hlen : nm.length ≤ 10) (hnm : ∀ b ∈ nm, b ≠ SP ∧ b ≠ 0) (X : Seq) (l : Tok)
+theorem readName10_pad (nm : Name) (hlen : nm.length ≤ 10) (hnm : ∀ b ∈ nm, b ≠ SP ∧ b ≠ 0) (hasc : allAscii nm = true)
+    (X : Seq) (l : Tok)
     (p : Bool) : readName10 ⟨pad10 nm ++ X, l, p⟩ = .ok (nm, ⟨X, l, p⟩) := by
   have hl : (pad10 nm).length = 10 := by rw [pad10_eq nm hlen]; simp; omega
-  have ht : (pad10 nm ++ X).take 10 = pad10 nm := by
-    rw [← hl]; exact List.take_left
-  have hd : (pad10 nm ++ X).drop 10 = X := by
-    rw [← hl]; exact List.drop_left
+  have hpa : allAscii (pad10 nm) = true := by
+    rw [pad10_eq nm hlen]
+    simp only [allAscii, List.all_append, Bool.and_eq_true, List.all_eq_true, List.mem_replicate] at hasc ⊢
+    exact ⟨hasc, fun b hb => by rw [hb.2]; decide⟩
+  have htk : Utf8.takeRunes 10 (pad10 nm ++ X) = (pad10 nm, X, 10) := by
+    have := Gv.Proofs.Utf8Norm.takeRunes_ascii (pad10 nm) X hpa
+    rwa [hl] at this
   have hlast : ¬ ((pad10 nm).getLast? = some 0) := by
     intro e
     have hm := List.mem_of_getLast? e
@@ -307,14 +312,12 @@ theorem readName10_pad (nm : Name) (hlen : nm.length ≤ 10) (hnm : ∀ b ∈ nm
       simp [(List.mem_replicate.mp hb).2]
     rw [h1, h2, List.append_nil]
   unfold readName10
-  have hge : ¬ ((pad10 nm ++ X).length < 10) := by
-    simp only [List.length_append, hl]; omega
   have hlast' : ((pad10 nm).getLast? == some 0) = false := by simpa using hlast
-  simp only [hge, if_false, ht, hd, hlast', hf, pure, Except.pure, Bool.false_eq_true]
+  simp only [htk, Nat.lt_irrefl, if_false, hlast', hf, pure, Except.pure, Bool.false_eq_true]
 
 /-- strict name column: the name padded to 10 columns, the residues -/
 theorem first_strict (block : Nat) (hb : 0 < block) (nm : Name) (hlen : nm.length ≤ 10)
-    (hnm : ∀ b ∈ nm, b ≠ SP ∧ b ≠ 0) (sg : Seq) (hne : sg ≠ []) (hres : ∀ b ∈ sg, Res b) (T : Seq) (l : Tok)
+    (hnm : ∀ b ∈ nm, b ≠ SP ∧ b ≠ 0) (hasc : allAscii nm = true) (sg : Seq) (hne : sg ≠ []) (hres : ∀ b ∈ sg, Res b) (T : Seq) (l : Tok)
     (fuel n : Nat) (acc : List XRow) :
     firstBlock true (fuel + 1) (n + 1) ⟨pad10 nm ++ lineText block sg ++ T, l, false⟩ acc =
       firstBlock true fuel n ⟨T, .eol, false⟩ (acc ++ [(nm, sg)]) := by
@@ -326,7 +329,7 @@ theorem first_strict (block : Nat) (hb : 0 < block) (nm : Name) (hlen : nm.lengt
   have hsl := fun (l : Tok) => seqLine_chunks cs hcs (c0 :: c') ((tailText cs ++ NL :: T).length + 3) T l []
     (by have := tailText_length cs (fun d hd => (hcs d hd).1.1); simp only [List.length_append, List.length_cons]; omega)
   rw [e0, firstBlock]
-  simp only [if_true, readName10_pad nm hlen hnm, bind, Except.bind, pure, Except.pure, st_scan _ _ _ _ hs]
+  simp only [if_true, readName10_pad nm hlen hnm hasc, bind, Except.bind, pure, Except.pure, st_scan _ _ _ _ hs]
   rw [← hxr, hsl]
   simp only [List.nil_append, hfl]
 
